@@ -12,7 +12,7 @@
   The text functions are exact on ASCII input (every byte < 0x80); Go's Unicode white space
   (U+0085, U+00A0, …) is outside the model.
 -/
-namespace Kmip
+namespace Kmip.Reg
 
 abbrev Table := List (Nat × Nat)
 
@@ -392,4 +392,4 @@ def cleanName (n : Nat) : Bool :=
 /-- all names of a number ↦ name table are clean. -/
 def cleanNames (byNum : Table) : Bool := byNum.all fun p => cleanName p.2
 
-end Kmip
+end Kmip.Reg
